@@ -88,4 +88,9 @@ META = {
                     "acceleration Jacobians against extended-precision central differences of that oracle with right perturbations; degrees 1..6, five "
                     "group types, Bernstein/B-spline/random bases, u at the ends and 1e-9 inside.",
             "note": _ALG_NOTE, "technique": "runtime monitoring: reference-model oracle (matrix jets + extended-precision differentiation), ASan/UBSan"},
+    "C13": {"text": "Exploration: BSpline<K,G> against the cumulative B-spline definition (own Cox-de Boor basis, matrix jets) at random times, every knot "
+                    "and knot +- 1 ulp, t_min/t_max and up to 1e3 spans outside, for K = 1..6; continuity of the orders <= K-1 across every interior "
+                    "knot, local support (intervals outside i-K..i bit-equal after moving control point i), reproduction of constants with zero "
+                    "derivatives, left-equivariance; ASan+UBSan watch the float->int64 interval index and the drop/take windows.",
+            "note": _ALG_NOTE, "technique": "runtime monitoring: reference-model oracle + invariant monitors (continuity, locality, equivariance), ASan/UBSan"},
 }
